@@ -198,6 +198,9 @@ class C36(core.Check):
             {'ops': [['L', 1, 1, None], ['P', [['v', [49]]]], ['P', [['v', [50]]]], ['P', [['v', [51]]]],
                      ['P', [['v', [52]]]], ['P', [['v', [53]]]], ['P', [['v', [54]]]],
                      ['V', 1, 5], ['L', 2, 79, None], ['T', [97, 98, 99, 100]]]},
+            # D36c: narrower screen with the key bar on and the cursor right of the new width
+            {'ops': [['K', 1], ['L', 1, 60, None], ['W', 40], ['P', [['v', [65]]]]]},
+            {'ops': [['K', 1], ['P', [['v', [65] * 50], ';']], ['S', 1], ['W', 80], ['L', 2, 41, None], ['S', 0], ['W', 40]]},
             # boundaries
             {'ops': [['P', [X80]], ['P', [X80, ';']], ['P', [['v', [89]]]]]},
             {'ops': [['L', 24, 1, None], ['P', [X80, ';']], ['P', [['v', [89]], ';']]]},
@@ -301,6 +304,8 @@ class C36(core.Check):
             fam = i % 10
             if fam < 5:
                 hist['general'] += 1
+                if rng.random() < 0.15:
+                    ops.append(['K', 1])
                 for _ in range(rng.randrange(2, 15)):
                     op = self._op(rng, width, hist)
                     ops.append(op)
@@ -402,17 +407,27 @@ class C36(core.Check):
                 for op in case['ops']:
                     del errs[:]
                     tag, val = 0, 0
-                    if op[0] == 'F':
-                        v = s.evaluate('SCREEN(%d,%d)' % (op[1], op[2]))
-                        if not errs:
-                            val = int(v)
-                    elif op[0] == 'T':
-                        ts.write_chars(bytes(op[1]), do_scroll_down=True)
-                    else:
-                        s.execute(stmt_text(op))
-                    if errs:
-                        tag, val = 1, errs[0]
-                    snaps.append(snap(tag, val))
+                    try:
+                        if op[0] == 'F':
+                            v = s.evaluate('SCREEN(%d,%d)' % (op[1], op[2]))
+                            if not errs:
+                                val = int(v)
+                        elif op[0] == 'T':
+                            ts.write_chars(bytes(op[1]), do_scroll_down=True)
+                        else:
+                            s.execute(stmt_text(op))
+                        if errs:
+                            tag, val = 1, errs[0]
+                        snaps.append(snap(tag, val))
+                    except TimeoutError:
+                        raise
+                    except Exception as e:
+                        # a host exception escaped the interpreter: the history ends here
+                        crashed = dict(snaps[-1])
+                        crashed['res'] = common.canon_exc(e)
+                        crashed['crash'] = '%s: %s' % (type(e).__name__, e)
+                        snaps.append(crashed)
+                        break
         cache[key] = snaps
         if len(cache) > 3000:
             cache.pop(next(iter(cache)))
@@ -493,8 +508,13 @@ class C36(core.Check):
     def oracle(self, case, out):
         snaps = self._trace(case)
         for k, op in enumerate(case['ops']):
+            if k + 1 >= len(snaps):
+                break
             pre, post = snaps[k], snaps[k + 1]
-            what = 'statement %d %r' % (k + 1, op if op[0] in 'PT' and False else (op[0], op[1:] if op[0] not in 'PT' else '...'))
+            if post.get('crash'):
+                return 'statement %d %s: host exception %s escaped the interpreter' % (
+                    k + 1, op[0] if op[0] in 'PT' else repr(op), post['crash'])
+            what = 'statement %d %s' % (k + 1, op[0] if op[0] in 'PT' else repr(op))
             w, h = post['width'], post['height']
             # the cursor is always within the screen
             if not (1 <= post['row'] <= h and 1 <= post['col'] <= w):
